@@ -11,6 +11,7 @@ package main
 
 import (
 	"bytes"
+	"errors"
 	"fmt"
 	"runtime"
 	"sync"
@@ -39,6 +40,7 @@ const (
 const (
 	cPlain = iota
 	cSendMore
+	cFail // records, then returns an error
 )
 
 type op struct {
@@ -110,6 +112,9 @@ func (c *consumer) OnMessageResponse(body []byte) error {
 			t := c.tag + i
 			_ = c.w.env.Conn().SendLoginPluginMessage(c.w.channel, []byte{byte(t)}, &consumer{w: c.w, kind: cPlain, tag: t})
 		}
+	}
+	if c.kind == cFail {
+		return errors.New("verif: this consumer fails")
 	}
 	return nil
 }
@@ -222,6 +227,9 @@ func opTerm(o op) string {
 		if o.ckind == cSendMore {
 			k = lib.App("CSendMore", lib.N(uint64(o.tag)), lib.Nat(o.more))
 		}
+		if o.ckind == cFail {
+			k = lib.App("CFail", lib.N(uint64(o.tag)))
+		}
 		return lib.App("OSend", k, bodyTerm(o.data))
 	case kRelay:
 		return lib.App("ORelay", lib.Z(int64(o.bid)), bodyTerm(o.data))
@@ -256,6 +264,9 @@ func opDesc(o op) string {
 	case kSend:
 		if o.ckind == cSendMore {
 			return fmt.Sprintf("send(data %v, consumer %d that sends %d more)", o.data, o.tag, o.more)
+		}
+		if o.ckind == cFail {
+			return fmt.Sprintf("send(data %v, consumer %d that returns an error)", o.data, o.tag)
 		}
 		return fmt.Sprintf("send(data %v, consumer %d)", o.data, o.tag)
 	case kRelay:
@@ -320,7 +331,9 @@ type gen struct {
 func (g *gen) send() op {
 	g.tag++
 	o := op{kind: kSend, ckind: cPlain, tag: g.tag, data: []byte{byte(g.tag)}}
-	if g.r.Chance(1, 8) {
+	if g.r.Chance(1, 6) {
+		o.ckind = cFail
+	} else if g.r.Chance(1, 8) {
 		o.ckind = cSendMore
 		o.more = g.r.Range(1, 2)
 		g.tag += o.more
@@ -423,13 +436,39 @@ func orderlyHistory(r *lib.Rng) []op {
 	g := &gen{r: r}
 	var ops []op
 	pre := r.Range(0, 5)
+	order := r.Perm(pre) // the order in which the client answers
+	// which consumers return an error: none, the one answered last, one in the middle, all, random
+	fails := make([]bool, pre)
+	if pre > 0 {
+		switch r.Intn(5) {
+		case 1:
+			fails[order[pre-1]] = true
+		case 2:
+			fails[order[pre/2]] = true
+			if pre > 1 {
+				fails[order[pre-1]] = false
+			}
+		case 3:
+			for i := range fails {
+				fails[i] = true
+			}
+		case 4:
+			for i := range fails {
+				fails[i] = r.Chance(1, 2)
+			}
+		}
+	}
 	for i := 0; i < pre; i++ {
 		g.tag++
 		g.nextID++
-		ops = append(ops, op{kind: kSend, ckind: cPlain, tag: g.tag, data: []byte{byte(g.tag)}})
+		o := op{kind: kSend, ckind: cPlain, tag: g.tag, data: []byte{byte(g.tag)}}
+		if fails[i] {
+			o.ckind = cFail
+		}
+		ops = append(ops, o)
 	}
 	ops = append(ops, op{kind: kFire})
-	for _, id := range r.Perm(pre) {
+	for _, id := range order {
 		ops = append(ops, op{kind: kResponse, id: id + 1, success: r.Chance(3, 4), data: r.Bytes(r.Range(0, 3)), via: r.Intn(3)})
 		if r.Chance(1, 5) {
 			ops = append(ops, g.response())
@@ -642,7 +681,7 @@ func main() {
 	rng := lib.NewRng(f.Seed)
 	out := lib.NewOut("C13", f)
 	out.Imports = "From Verif Require Import Base.Lin Model.LoginInbound.\n"
-	out.Rule = "four streams over a real loginInboundConn (and modernForgeLoginRelay) on recording client/backend connections: (seq) 0..4 sends before the event (some answered before they were sent), the event (sometimes never, sometimes late), then up to 14 sends / relays of backend messages / client responses (right ids, ids not sent yet, extreme ids; success or failure; nil, empty or 1..3 byte bodies; through handleLoginPluginResponse or the initial-login / auth handlers), consumers that send more messages from inside, clearOnAllMessagesHandled before relays, sends without contents, and a closing sweep answering everything (some twice); (orderly) sends, the event, each message answered once, nothing sent afterwards; (old) the same on a 1.12.2 client where every send must fail; (conc) one sending, one answering and one firing goroutine, 1..3 calls each, logical clock. Non-trivial: seq/orderly/old = a consumer or the relay ran and some response was ignored; conc = two calls of different goroutines overlapped. Distinct = distinct Coq case terms."
+	out.Rule = "four streams over a real loginInboundConn (and modernForgeLoginRelay) on recording client/backend connections: (seq) 0..4 sends before the event (some answered before they were sent), the event (sometimes never, sometimes late), then up to 14 sends / relays of backend messages / client responses (right ids, ids not sent yet, extreme ids; success or failure; nil, empty or 1..3 byte bodies; through handleLoginPluginResponse or the initial-login / auth handlers), consumers that send more messages from inside, consumers that return an error, clearOnAllMessagesHandled before relays, sends without contents, and a closing sweep answering everything (some twice); (orderly) sends, the event, each message answered once, nothing sent afterwards, with consumers returning an error for none / the last answered / a middle / all / random messages; (old) the same on a 1.12.2 client where every send must fail; (conc) one sending, one answering and one firing goroutine, 1..3 calls each, logical clock. Non-trivial: seq/orderly/old = a consumer or the relay ran and some response was ignored; conc = two calls of different goroutines overlapped. Distinct = distinct Coq case terms."
 
 	nSeq, nOrd, nOld, nConc := f.Count(180), f.Count(50), f.Count(10), f.Count(90)
 	emitSeq := func(kind string, pok bool, ops []op) {
